@@ -84,15 +84,39 @@ func runC16(o *opts) (*summary, error) {
 		}
 		w.put(M{"fn": "date_row", "a": pa, "bs": pbs, "codes": codes}, class, fmt.Sprintf("d%v/%d", a, len(bs)))
 	}
+	// every listed day against its calendar neighbours (two days either side, across month and year ends)
+	around := func(d [3]int) [][3]int {
+		bs := [][3]int{}
+		for k := -2; k <= 2; k++ {
+			t := time.Date(d[0], time.Month(d[1]), d[2]+k, 0, 0, 0, 0, time.UTC)
+			if t.Year() < 1 || t.Year() > 9999 || (t.Year() == 1 && t.YearDay() == 1) {
+				continue
+			}
+			bs = append(bs, [3]int{t.Year(), int(t.Month()), t.Day()})
+		}
+		return bs
+	}
 	for i := range days {
-		lo, hi := i-2, i+3
-		if lo < 0 {
-			lo = 0
+		row(days[i], around(days[i]), "date-adjacent")
+	}
+	// year ends: 31 December / 1 January of every year of a 400-year cycle (quick) / of every year (thorough)
+	y0, y1 := 1890, 2290
+	if thorough {
+		y0, y1 = 1, 9998
+	}
+	for y := y0; y <= y1; y++ {
+		row([3]int{y, 12, 31}, around([3]int{y, 12, 31}), "date-yearend")
+		row([3]int{y + 1, 1, 1}, around([3]int{y + 1, 1, 1}), "date-yearend")
+	}
+	// month ends of the same years (quick: a leap and a common year per century)
+	for y := y0; y <= y1; y++ {
+		if !thorough && y%25 != 0 && y%100 != 99 {
+			continue
 		}
-		if hi > len(days) {
-			hi = len(days)
+		for m := 1; m <= 12; m++ {
+			last := time.Date(y, time.Month(m)+1, 0, 0, 0, 0, 0, time.UTC).Day()
+			row([3]int{y, m, last}, around([3]int{y, m, last}), "date-monthend")
 		}
-		row(days[i], days[lo:hi], "date-adjacent")
 	}
 	n := 120
 	if thorough {
